@@ -128,7 +128,7 @@ def quantitative_filter(
     prefered_order = ranks.index
 
     # computing correlation between features
-    X_corr = X[prefered_order].corr(corr_measure).abs()
+    X_corr = X[prefered_order].corr(corr_measure).abs().clip(upper=1.0)  # (rounding can give 1 + 2e-16)
     X_corr = X_corr.where(triu(ones(X_corr.shape), k=1).astype(bool))
 
     # initiating list of maximum association per feature
